@@ -717,9 +717,13 @@ Proof.
 Qed.
 
 (* ---- the judge's bookkeeping against the model state ---- *)
+(* the listen entry as the judge files it: with SpecProxy.dial_mark added for a connection THE PROXY DIALLED
+   (read by its own KTcpConn transport), as it is for an accepted one *)
+Definition jli_of (cn : conn) : nat :=
+  match t_kind (cn_from cn) with KTcpConn => (cn_li cn + dial_mark)%nat | _ => cn_li cn end.
 Definition conns_agree (jc : list (nat * (nat * bytes * Z))) (cs : list conn) : Prop :=
   forall id li ip port, In (id, (li, ip, port)) jc <->
-    exists cn, In cn cs /\ cn_open cn = true /\ cn_id cn = id /\ cn_li cn = li /\ cn_peer cn = ip /\ cn_peer_port cn = port.
+    exists cn, In cn cs /\ cn_open cn = true /\ cn_id cn = id /\ jli_of cn = li /\ cn_peer cn = ip /\ cn_peer_port cn = port.
 Definition agree (stj : jstate) (st : state) : Prop :=
   (forall li p, nth_p (st_proxies st) li = Some p ->
      exists l, nth_opt (js_backends stj) li = Some l /\ pool_agree l p) /\
@@ -1136,7 +1140,7 @@ Proof.
 Qed.
 
 (* ---- the judge's reading of the dial reports ---- *)
-Definition jc_of (cn : conn) : nat * (nat * bytes * Z) := (cn_id cn, (cn_li cn, cn_peer cn, cn_peer_port cn)).
+Definition jc_of (cn : conn) : nat * (nat * bytes * Z) := (cn_id cn, (jli_of cn, cn_peer cn, cn_peer_port cn)).
 (* the label and payload of a dial report can be read back: port and identifier in the int64 range *)
 Definition dials_readable (outs : list output) : Prop :=
   Forall (fun o => match fst o with
@@ -1147,7 +1151,8 @@ Lemma dialled_cons li o l :
   dialled li (o :: l) =
   (if is_dial o then
      match last_index_byte ":"%char (skipn 5 (fst o)), atoi (snd o) with
-     | Some p, Some id => [(Z.to_nat id, (li, firstn p (skipn 5 (fst o)), atoi_val (skipn (S p) (skipn 5 (fst o)))))]
+     | Some p, Some id => [(Z.to_nat id, ((li + dial_mark)%nat, firstn p (skipn 5 (fst o)),
+                                          atoi_val (skipn (S p) (skipn 5 (fst o)))))]
      | _, _ => []
      end
    else []) ++ dialled li l.
@@ -1310,7 +1315,7 @@ Qed.
 Example b3_tcp_agree_after :
   js_conns (js_step_c (js_init C01.ex_cfg) (EvUdp 0 b3_src 5070%Z b3_req_tcp)
               (map labelled (filter (visible (pc_udp_endpoints b3_pc)) (b3_outs b3_req_tcp))) [])
-    = [(0%nat, (0%nat, s2b "10.0.0.7", 5080%Z))] /\
+    = [(0%nat, (dial_mark, s2b "10.0.0.7", 5080%Z))] /\      (* listen entry 0, a connection the proxy dialled *)
   agree (js_step_c (js_init C01.ex_cfg) (EvUdp 0 b3_src 5070%Z b3_req_tcp)
            (map labelled (filter (visible (pc_udp_endpoints b3_pc)) (b3_outs b3_req_tcp))) [])
         (b3_state b3_req_tcp).
